@@ -153,6 +153,59 @@ func runC10(r *Runner, g *Gen, tier string) string {
 		}
 		r.Do(codecOp("decm", cfg, t, "", v.Sexp(), A("zero")), nontrivialVal(t, v), "decm.fresh-after")
 	}
+	// shared pointers in the target: the elements of the target's pointer slices are the SAME pointer
+	// (equal values); a decode must clear the re-used array, not write through what it pointed to
+	for i := 0; i < scale(tier, 300, 20000); i++ {
+		cfg := g.pickCfg()
+		pointee := g.r.PickT(B("int"), B("int8"), B("uint64"), B("bool"), B("uint8"), B("str"), Struct(F("A", "1", B("int")), F("B", "2", B("str"))), &TyDef{K: "time"}, B("f64"))
+		if pointee.K == "f64" {
+			pointee = B("int32") // slices of pointers to floats are rejected
+		}
+		st := Slice(Ptr(pointee))
+		t := Struct(F("L", "1", st), F("X", "2", B("int")))
+		switch g.r.Intn(4) {
+		case 0:
+			t = Struct(F("N", "3", Struct(F("L", "1", st))))
+		case 1:
+			t = Struct(F("P", "1", Ptr(Struct(F("L", "2", st)))), F("L", "2", st))
+		}
+		b := 12
+		one := g.Value(Ptr(pointee), &b)
+		for one.P == nil {
+			b = 12
+			one = g.Value(Ptr(pointee), &b)
+		}
+		fill := func(tt *TyDef, n int) *Val { // every pointer slice holds n copies of the one value
+			var rec func(tt *TyDef) *Val
+			rec = func(tt *TyDef) *Val {
+				switch tt.K {
+				case "struct":
+					out := &Val{K: "r"}
+					for _, f := range tt.Fields {
+						out.L = append(out.L, rec(f.T))
+					}
+					return out
+				case "ptr":
+					return &Val{K: "p", P: rec(tt.Elem)}
+				case "slice":
+					out := &Val{K: "l"}
+					for k := 0; k < n; k++ {
+						out.L = append(out.L, one)
+					}
+					return out
+				}
+				return zeroVal(tt)
+			}
+			return rec(tt)
+		}
+		prior := fill(t, 2+g.r.Intn(4))
+		b = 30
+		v := g.Value(t, &b)
+		if knownShape(cfg, t, false) {
+			continue
+		}
+		r.Do(codecOp("decm", cfg, t, "", v.Sexp(), prior.Sexp(), A("alias")), true, "decm.alias")
+	}
 	poolHistories(r, g, scale(tier, 150, 6000))
 	for _, n := range []int{1, 2, 3, 7, 20} {
 		r.Do(L(A("ptrkeys"), A(fmt.Sprint(n))), true, "ptrkeys")
@@ -573,5 +626,16 @@ func runC12(r *Runner, g *Gen, tier string) string {
 		r.Do(L(A("xdec"), A("01"), A("00"), t.Sexp(), v.Sexp()), nontrivialVal(t, v), "xdec.01-00")
 		r.Do(L(A("xdec"), A("11"), A("10"), t.Sexp(), v.Sexp()), nontrivialVal(t, v), "xdec.11-10")
 	}
-	return "struct-rooted generated types (maps optionally proto-tagged) and values under all four option combinations: bytes compared exactly with the model and the reference encoder, round trip in each mode, and the repeated-field form written by a ProtoCompatibleArrays instance read back by a default-mode instance; oracle: an independent protobuf wire reader accepts the proto-mode bytes (only wire types 0,1,2,5, exact lengths)"
+	// null types under both options (read back by the independent protobuf reader)
+	for i := 0; i < n/10; i++ {
+		g.proto = true
+		t := g.presenceStruct(1)
+		b := 30
+		v := g.Value(t, &b)
+		if knownShape("11", t, false) || multiEntryMaps(v) {
+			continue
+		}
+		r.Do(codecOp("enc", "(cfg 11 null)", t, "", v.Sexp()), true, "enc.null")
+	}
+	return "struct-rooted generated types (maps optionally proto-tagged) and values under all four option combinations: bytes compared exactly with the model and the reference encoder, round trip in each mode, and the repeated-field form written by a ProtoCompatibleArrays instance read back by a default-mode instance; oracle: an independent protobuf reader (field numbers >= 1, wire types 0,1,2,5, exact lengths, zig-zag sint64, packed scalars, repeated elements, map entries, Timestamp) reconstructs the encoded value from the bytes written under the proto options; null types under both options"
 }
